@@ -281,7 +281,10 @@ def canon(src, squeeze=True):
     for _a, _full in ALIASES.items():
         src = _re.sub(r"(?<![\w.])%s\." % _a, _full + ".", src)
     try:
-        tree = ast.parse(src.strip())
+        import warnings as _w
+        with _w.catch_warnings():
+            _w.simplefilter("ignore")
+            tree = ast.parse(src.strip())
         if len(tree.body) == 1 and isinstance(tree.body[0], ast.Expr):
             t = unparse(tree.body[0].value)
         else:
